@@ -745,7 +745,7 @@ def run(chk: Check):
             chk.proof['broken'].append({'stage': 'translator', 'errors': [f'export.rs no longer contains the sorts the model transcribes: {order["export_sorts"]}']})
     else:
         order = FALLBACK_ORDER
-    nstatic, nrun = (40, 24) if quick else (420, 220)
+    nstatic, nrun = (40, 24) if quick else (300, 160)
     chk.extra['rule'] = (f'{nstatic} generated repositories that are never run (1-3 pipelines incl. `default`, 0-4 steps each, names/commands/paths from pools with '
                          'quotes, newlines, CR, tabs, non-ASCII, YAML-significant tokens; all 11 offline dependency kinds, 3 output kinds, 3 --when modes; step update / '
                          f'remove / re-create; refused commands) + {nrun} repositories whose pipelines are executed first (recorded metadata, digests, item maps, '
